@@ -102,6 +102,14 @@ def run_case(ctx, rep, case, base, model_ok):
             if init_state in ("healthy", "pointer-lost"):
                 t0.append_records(tablekit.rows(2, tag="orig"))
                 orig_rows = sorted(reader.rowkey(r) for r in tablekit.rows(2, tag="orig"))
+            if init_state == "pointer-lost-deep":
+                # a table with a two-digit version number (v12): the version found by listing must be the numerically highest
+                allr = []
+                for j_ in range(12):
+                    r_ = tablekit.rows(1, start=10 * j_, tag=f"orig{j_}_")
+                    t0.append_records(r_)
+                    allr += r_
+                orig_rows = sorted(reader.rowkey(r) for r in allr)
             orig_uuid = t0.metadata_manager.refresh().table_uuid
             if init_state == "legacy-names-pointer-lost":
                 # a table written by an old release: metadata files named vN.metadata.json (no suffix); its pointer is gone
@@ -121,7 +129,7 @@ def run_case(ctx, rep, case, base, model_ok):
                         if m_:
                             env.fake.objects[f"{m_.group(1)}v{m_.group(2)}.metadata.json"] = env.fake.objects.pop(k_)
                     env.fake.objects.pop(f"{loc}/metadata.version-hint.text", None)
-            if init_state in ("pointer-lost", "v0-without-pointer"):
+            if init_state in ("pointer-lost", "v0-without-pointer", "pointer-lost-deep"):
                 if backend == "local":
                     os.remove(os.path.join(path, "metadata.version-hint.text"))
                 else:
@@ -403,7 +411,7 @@ def cases(ctx):
             out.append({"backend": backend, "initial": "absent", "actors": ["create", "create"], "chooser": _preempt_before(pre, age),
                         "lock_may_lapse": age})
     for backend in ("local", "s3cas"):
-        for initial in ("absent", "healthy", "pointer-lost", "v0-without-pointer", "legacy-names-pointer-lost"):
+        for initial in ("absent", "healthy", "pointer-lost", "v0-without-pointer", "legacy-names-pointer-lost", "pointer-lost-deep"):
             out.append({"backend": backend, "initial": initial, "actors": ["create", "create"]})
             out.append({"backend": backend, "initial": initial, "actors": ["create", "open", "append"]})
     for _ in range(ctx.budget(30, 1200)):
